@@ -157,6 +157,24 @@ Fixpoint poison (fuel : nat) (bs : list Z) : list Z :=
     end
   end.
 
+(* self-check of the number oracle: for every number lexeme of the document (values, and strings / keys that spell a number),
+   the bits computed by the algorithm dec2f64 satisfy the independent decidable specification of round-to-nearest-even
+   (Num.f64_rounds_to).  A disagreement is an alarm about the MODEL (verdict code 90), never a silent acceptance. *)
+Definition lex_consistent (l : list Z) : bool :=
+  if (length l <=? 15)%nat && forallb (fun c => is_digit c || (c =? 45)) l then true else   (* short plain integers are exact in binary64: nothing to round *)
+  match lex_decimal l with
+  | Some d => f64_rounds_to d (dec2f64 d)
+  | None => true
+  end.
+Fixpoint nums_consistent (j : json) : bool :=
+  match j with
+  | JNum l => lex_consistent l
+  | JStr x => lex_consistent x
+  | JArr xs => forallb nums_consistent xs
+  | JObj ms => forallb (fun m => lex_consistent (fst m) && nums_consistent (snd m)) ms
+  | _ => true
+  end.
+
 Definition res_is (r : res) (pre out : list Z) : bool :=
   match r with Ok b => bytes_eqb out (pre ++ b) | Err _ => false end.
 
@@ -178,12 +196,13 @@ Section Judge.
   Variable t : ty.
   Variable text : list Z.
   Variable m : res.    (* the strict model result, computed once *)
-  Variable oob : Z.    (* number of struct-level key lookups of this document that hit the native trie's off-by-one bound test (finding 207) *)
+  Variable oob : Z.    (* number of struct-level key lookups of this document that hit the native trie's off-by-one bound test (finding 207, fixed by a spare node on the Go side) *)
 
   Definition judge02 (ob : Z * list Z * Z * list Z) : verdict :=
     let '(cp, pre, ec, out) := ob in
     if ec =? 9 then VBad 9 [FZ cp] else          (* a panic is never an acceptable outcome *)
-    if ec =? 10 then (if 0 <? oob then VKnown 207 else VBad 10 [FZ cp]) else   (* memory fault inside the native code *)
+    if ec =? 10 then VBad 10 [FZ cp; FZ oob] else   (* memory fault inside the native code (finding 207 is fixed: never acceptable; oob = number of
+                                                       key lookups of the document that reach the native trie's off-by-one bound test) *)
     match m with
     | Ok b =>
       if ec =? 0 then
@@ -241,6 +260,7 @@ Definition check_201 (fs : list field) : verdict :=
         if negb in_domain then VSkip else
         let o := opts02 bits in
         let m := j2t_text strict D o t text in
+        if negb (match json_parse_prefix text with Some (j, _) => nums_consistent j | None => true end) then VBad 90 [] else
         fold_left (fun acc ob => worse acc (judge02 D o t text m oob ob)) obs VOk
       end
     | _ => VBad 96 []
